@@ -261,6 +261,13 @@ def sch_done(ctx: Ctx) -> RuleResult:
         if not h.removes_done:
             r.violate(f"{h.fn.short}: finished nodes are not removed from the graph", h.fn.loc(),
                       "the helper waits for futures but never removes the finished nodes: successors are never released")
+        reb = [x for x in h.notes if x.startswith("PENDING-REBOUND")]
+        r.ob(not reb, {"helper": h.fn.short, "pending set is the one returned by the wait primitive": not reb})
+        if reb:
+            r.violate(f"{h.fn.short}: the set of running futures is re-filtered after the wait", h.fn.loc(h.wait_call),
+                      "a future that finishes between the return of the wait primitive and the re-filtering leaves the in-flight set "
+                      "without ever being pruned from the graph: its successors never become runnable and the scheduler spins with "
+                      "nothing in flight", reb)
     return r
 
 
